@@ -4,8 +4,11 @@
    on the real file contents (ids = equal canonical mapping sets).  The model then has to
    reproduce everything observable of VersionGraph: node order, names, depths, root,
    adjacency in petgraph order, every lookup, and for every queried name the answer of
-   apply_diffs must be one of the model's candidates (shortest paths). *)
-From FB Require Export C05.Model Base.Run.
+   apply_diffs must be one of the model's candidates (shortest paths).
+   CInst cases: selected directories once more with their REAL contents, through the instantiated
+   model of C05/Instance.v (no tables). *)
+From FB Require Export C05.Model Base.Run Quill.Mappings.
+From FB Require C05.Instance.
 
 Definition ntbl := list (N * N).
 Fixpoint nlookup (k : N) (t : ntbl) : res N :=
@@ -45,8 +48,12 @@ Record view := mkView {
   v_applies : list (N * res N) }.         (* get(name) then apply_diffs: id of the answer *)
 
 Inductive case :=
-| CDir (strs : list str) (d : list (N * N)) (wf : bool) (t : tables) (r : res view).
+| CDir (strs : list str) (d : list (N * N)) (wf : bool) (t : tables) (r : res view)
   (* wf: what the harness' reference reader says about the hypothesis [well_formed] of the theorems *)
+| CInst (d : list (str * str)) (r : res (list (str * res mappings))).
+  (* the INSTANTIATED model (C05/Instance.v: vg_ops = C03 read, C11 contract/extend, C04 read/apply) on the
+     real file contents (code points), against VersionGraph::resolve (Err) and, for every lookup name that
+     get() knows, apply_diffs: the answer must be one of the model's candidates up to the order of the maps *)
 
 Definition sget (strs : list str) (i : N) : str := nth (N.to_nat i) strs [].
 
@@ -63,8 +70,17 @@ Definition get_eqb (strs : list str) (g : graph N N) (q : N * option (N * N)) : 
 Definition apply_ok (strs : list str) (t : tables) (g : graph N N) (q : N * res N) : bool :=
   existsb (fun c => res_eqb N.eqb c (snd q)) (candidates_by_name (tops t) g (sget strs (fst q))).
 
+Definition inst_ok (g : graph str mappings) (q : str * res mappings) : bool :=
+  existsb (fun c => res_eqb equivb c (snd q)) (candidates_by_name FB.C05.Instance.vg_ops g (fst q)).
+
 Definition check (c : case) : bool :=
   match c with
+  | CInst d r =>
+      match resolve (load_root FB.C05.Instance.vg_ops) d, r with
+      | Err, Err => true
+      | Ok g, Ok qs => forallb (inst_ok g) qs
+      | _, _ => false
+      end
   | CDir strs d0 wf t r =>
       let d := map (fun f => (sget strs (fst f), snd f)) d0 in
       Bool.eqb (well_formed d && nodup_strb (map fst d)) wf &&
